@@ -37,6 +37,18 @@ CHECKS = {
    text="Reactive DCC: the COMPLETE transition graph of the real state machine (every state x every band-boundary representative of both Annex A tables with +-1e-9 neighbours, 0 and 1, for six T_on settings) - every edge moves at most one state, outputs equal the literal Annex A row, every constant input reaches its band within four evaluations. Adaptive DCC: ALL CBR sequences up to length 7 (8 thorough) over the boundary alphabet x 5 parameter sets x local/global, delta compared with the clause 5.4 recurrence in exact rationals and with [delta_min, delta_max]; out-of-range local CBR rejected without trace. Gate keeper: explicit-state BFS over arrivals, delta updates and clock steps (to t_go exactly, +-0.5 ns, -1 us, ...) in lock-step with a B.1/B.2 reference in Fractions: open/closed agreement on every state, admissions >= 25 ms apart, closed <= 1 s, one admission per opening.",
    note="Trusted: CPython, mc/ref/dcc.py (Annex A literals; the A.1 Active-3/Restrictive boundary 0.60 and equations taken from the code's docstrings because the standard text is not available offline), deepcopy snapshots cross-checked by replay. Gate times near small origins (float rounding of B.2 at epoch magnitude exceeds 1 ns).",
    technique="complete transition graph + exhaustive bounded sequence enumeration + explicit-state BFS with reference model in lock-step"),
+ "C18": dict(level="model_checking", design="3/C18",
+   text="Explicit-state BFS (level-synchronous, globally de-duplicated, every state replay-checked against its snapshot) over event histories of the REAL VBSClusteringManager with the alphabet of the quantifier - role on/off, try-create (nearby VRUs present/absent, cluster-id choice), initiate-join(advertised/0/unknown), cancel-join, leave(reason), break-up(reason), received VAMs (plain/cluster info/join/leave/break-up; from leader/others; as hand-built dicts AND as real coder output), update, clock steps 0.05..3 s - to depth 6 (8 thorough) plus a deeper continuation below the first passive state. Invariants on every state (leader <=> owns cluster id 1..255 with cardinality >= 1; passive <=> joined, known leader, armed leader-lost timer; transmission suppressed only while passive or idle), bounded-liveness probes from every reachable passive state (silent leader / break-up => stand-alone and transmitting by the next update), notification-duration monitors, and closed loops of two and three complete VRU services through the real VAM coder (a join towards an advertised cluster completes).",
+   note="Trusted: CPython, asn1tools, deepcopy snapshots (each replay-checked), invariants/monitors in mc/checks/c18.py. Durations pinned to vam_constants.py (standard not available offline). update() is driven by the harness (the service never calls it).",
+   technique="explicit-state BFS over the real state machine with invariants, bounded-liveness probes on copies and closed-loop worlds"),
+ "C17": dict(level="model_checking", design="3/C17",
+   text="Every configuration of the lattice interval {100,150,1000,10000} ms x duration {0,1,(99),100,101,250,1000,(60000)} ms x 1-3 events with overlap offsets {0, i/2, i} x event positions in all hemispheres is executed under the controlled scheduler on a virtual clock: the service's repetition threads are controlled threads, time.sleep is a scheduling point and equal wake-up times are enumerated in every order with up to 2 departures from the default order; every BTPDataRequest is recorded with its virtual time, decoded with the DENM coder and checked for ceil(T/i) messages at 0,i,2i,.., port 2002, GBC circle centred on that event's position, constant actionId/station id per event, non-decreasing reference time, distinct actionIds for distinct events. Plus bytecode-level interleavings (preemption bound 1, 2 thorough) of two overlapping events inside the transmission management, plus reception of DENMs with all 32 presence patterns of the optional management fields into a real LDM at 7 positions.",
+   note="Trusted: CPython, asn1tools for decoding, the scheduler mc/sched.py (same-schedule-twice determinism check). Events are attributed to their repetition thread.",
+   technique="controlled-scheduler enumeration of wake-up orders on a virtual clock over a finite configuration lattice"),
+ "C15": dict(level="model_checking", design="3/C15",
+   text="Stateless schedule exploration with iterative context bounding of six harnesses of the REAL router (sequence numbers: 3 originators; CBF: two receptions of the same packet racing with the timer; the CBF seam called directly; ego-position refresh racing with originations; location service: two unicast requests, the reply and the retransmit timers; duplicate detection): scheduling points before every shared-state bytecode of router.py/location_table.py and at every lock/timer operation; every schedule with <= 1 preemption (2 on the two small harnesses; thorough: 2 and 3) is executed on fresh real objects and checked for pairwise distinct sequence numbers, at-most-once CBF transmission and never after a completed cancellation, whole position vectors, exactly-once-or-dropped unicast requests, no exception, no deadlock.",
+   note="Trusted: CPython incl. C-level atomicity of dict/deque operations, mc/sched.py. Preemption bounds as stated per harness in the evidence; timers may expire at any point after start().",
+   technique="stateless model checking of real threads under a controlled scheduler, iterative context (preemption) bounding"),
 }
 
 NOT_APPLICABLE = {}
